@@ -155,6 +155,8 @@ NAME_TEMPLATES = [
     "match v:\n    case {}:\n        pass", "match v:\n    case [a, *{}]:\n        pass", "match v:\n    case {{'k': {}}}:\n        pass",
     "behavior B():\n    del {}\n    wait", "behavior B():\n    {} += 1\n    wait", "behavior B():\n    for {} in y:\n        wait",
     "behavior B({}):\n    wait", "scenario S():\n    setup:\n        del {}", "monitor M():\n    {} = 1\n    wait",
+    "behavior B():\n    {}: int = 3\n    wait", "behavior B():\n    {}: int\n    wait", "monitor M():\n    {}: int = 0\n    wait",
+    "scenario S():\n    setup:\n        {}: float = 2.0\n        ego = new Object", "behavior B():\n    take : {}(1)",
     "class C(Object):\n    {}: 1", "ego = new Object with {} 3", "param {} = 3", "record 1 as {}", "require True as {}",
 ]
 NUMBERS = ["0x1", "1j", "0o7", "0b11", "1e400", "1_0", ".5", "5.", "1E-3", "0", "1", "2", "0.5", "00", "1e-400", "0_1", "1__0", "0xg", "1.5j"]
@@ -326,13 +328,13 @@ def obligations(tier, seed):
     obs.append(Obligation("expr-names[scenic-nodes]", h_expr_names("scenic"), "get_expr_name total on Scenic expression nodes",
                           {"classes": len(sc)}, [parser.ScenicParser.get_expr_name], [], system_replay=sys_replay_expr))
     obs.append(Obligation("state-reset-on-faults", h_state_reset, "veneer inactive after a fault at any compilation stage",
-                          {"stages": STAGES}, [translator.compileStream, translator._scenarioFromStream], []))
+                          {"stages": STAGES}, [translator.compileStream, translator._scenarioFromStream], [], opts=dict(total_timeout=900.0, per_path_timeout=60.0)))
     tobs = [("tracked-and-reserved-names-in-binding-positions", NAME_TEMPLATES, NAMES), ("numeric-literal-forms", NUMBER_TEMPLATES, NUMBERS),
             ("fstring-conversions", FSTRING_TEMPLATES, CONVERSIONS)]
     for name, templates, fills in tobs:
         obs.append(Obligation(f"templates[{name}]", h_templates(templates, fills), f"{len(templates)} statement templates x {len(fills)} fills",
                               {"templates": len(templates), "fills": fills}, [parser.parse_string, compiler.compileScenicAST, translator.compileTranslatedTree], [],
-                              opts=dict(total_timeout=300.0, max_paths=4000), twin=False))
+                              opts=dict(total_timeout=(300.0 if tier == "quick" else 1500.0), max_paths=4000), twin=False))
     for path in chosen:
         src = open(path).read()
         n = len(tokens_of(src))
@@ -345,5 +347,5 @@ def obligations(tier, seed):
                                   f"{op} mutations of {os.path.relpath(path, '/repo')}",
                                   {"sites": len(sites), "vocabulary": vocab if op in ("replace", "insert") else None},
                                   [parser.parse_string, compiler.compileScenicAST, translator.compileTranslatedTree], [],
-                                  opts=dict(total_timeout=300.0), twin=False, collect_all=False))
+                                  opts=dict(total_timeout=(300.0 if tier == "quick" else 1500.0), per_path_timeout=120.0), twin=False, collect_all=False))
     return obs
